@@ -1039,15 +1039,22 @@ func (x *Exec) step(sc *Scenario, in Input) {
 		}
 		if in.With != nil {
 			// the next input arrives while the shutdown is in progress
-			if in.With.Op == "join" && x.peers[in.With.S] == nil {
-				if in.With.R != in.R && in.With.R >= 0 && in.With.R < len(x.realms) && x.realms[in.With.R].alive {
-					// ... in another realm, which the removal must not disturb (C11)
+			if in.With.Op == "join" && in.With.R != in.R && in.Op == "rmrealm" {
+				// ... in another realm, which the removal must not disturb (C11); only if
+				// that realm exists (a HELLO would create a template realm)
+				if in.With.R >= 0 && in.With.R < len(x.realms) && x.realms[in.With.R].alive && x.peers[in.With.S] == nil {
 					x.realmCtx = x.realms[in.With.R]
+					q := x.newPeer(in.With.S, in.With.Join)
+					q.send(&wamp.Hello{Realm: x.uri, Details: helloDetails(in.With.Join)})
+					q.joined = true
+					x.realmCtx = x.realms[in.R]
+				} else {
+					in.With = nil
 				}
+			} else if in.With.Op == "join" && x.peers[in.With.S] == nil {
 				q := x.newPeer(in.With.S, in.With.Join)
 				q.send(&wamp.Hello{Realm: x.uri, Details: helloDetails(in.With.Join)})
 				q.joined = true
-				x.realmCtx = x.realms[in.R]
 			} else if q := x.peers[in.With.S]; q != nil && q.joined && !q.dropped && !q.gone {
 				x.sendConcurrent(q, *in.With)
 			}
